@@ -123,6 +123,37 @@ where
         if r.is_some() != want_some || left != len - len.min(N) || (want_some && r != Some(f)) {
             return bad("frame.from_samples", format!("{tag}: from_samples over {len} samples gave {r:?} and left {left} unconsumed"));
         }
+        // the same source through iterators with other size hints: (0, None), (0, Some(len)), (len, None)
+        for kind in 0..3 {
+            let mut pos = 0usize;
+            let mut raw = || {
+                let x = src.get(pos).copied();
+                if x.is_some() {
+                    pos += 1;
+                }
+                x
+            };
+            let r: Option<[S; N]> = match kind {
+                0 => Frame::from_samples(&mut std::iter::from_fn(&mut raw)),
+                1 => Frame::from_samples(&mut std::iter::from_fn(&mut raw).take(len + 5).filter(|_| true)),
+                _ => Frame::from_samples(&mut src.iter().copied().chain(std::iter::from_fn(|| None))),
+            };
+            let consumed_ok = kind == 2 || pos == len.min(N);
+            if r.is_some() != want_some || !consumed_ok || (want_some && r != Some(f)) {
+                return bad(
+                    "frame.from_samples",
+                    format!("{tag}: from_samples over {len} samples through an iterator with size hint {} gave {r:?} after consuming {pos}", ["(0, None)", "(0, Some(n))", "(n, None)"][kind]),
+                );
+            }
+        }
+        // a frame's own channel iterator is a sample iterator too
+        if len == N {
+            let mut ch = f.channels();
+            let r: Option<[S; N]> = Frame::from_samples(&mut ch);
+            if r != Some(f) {
+                return bad("frame.from_samples", format!("{tag}: from_samples over frame.channels() gave {r:?}"));
+            }
+        }
     }
     // channels(): by value, exact size
     let mut ch = f.channels();
